@@ -28,10 +28,14 @@ package tracer
 //	    counts, errors, buffer sizes handed down, headers, status, trailers,
 //	    panics) is identical to the run without tracing.
 //
-// Two cheap stages run before this enumeration (c14_history_test.go): stage H,
-// histories (pairs of cases traced back to back in one process: what the trace
-// says about a body must not depend on what was traced before), and stage S,
-// every spelling of every supported encoding name in every header carrying it.
+// Cheap stages run before this enumeration: stage M (c14_mutate_test.go), the
+// owner of the live header map edits it after the headers went out; stage P
+// (c14_h2_test.go), bodies carried through the HTTP/2 connection tracer in
+// hand-built frames (padding, CONTINUATION, priority, every cut into DATA
+// frames); (c14_history_test.go) stage H, histories (pairs of cases traced back
+// to back in one process: what the trace says about a body must not depend on
+// what was traced before), and stage S, every spelling of every supported
+// encoding name in every header carrying it.
 //
 // Violations are reported through the report only.
 
@@ -115,6 +119,8 @@ type c14Case struct {
 	Body   string `json:"body_hex"` // the delivered bytes D
 	Pieces []int  `json:"pieces"`   // composition of D into calls
 	Ending string `json:"ending"`
+	// stage M (c14_mutate_test.go): the owner of the live header map edits it after the headers went out
+	Mut *c14Mut `json:"mut,omitempty"`
 }
 
 func c14EndingGroup(e string) string {
@@ -296,6 +302,11 @@ func (s *c14Reader) Close() error {
 // c14Consume is the application side of a body: Read with a garbage-filled
 // buffer until the script ends, then Close.
 func c14Consume(body io.ReadCloser, pieces []int, ending string, log *[]byte) {
+	c14ConsumeHook(body, pieces, ending, log, nil)
+}
+
+// c14ConsumeHook is c14Consume with a hook that runs before the i-th Read call (i from 0).
+func c14ConsumeHook(body io.ReadCloser, pieces []int, ending string, log *[]byte, hook func(i int)) {
 	var buf [64]byte
 	reads := 0
 	closing := ending == "close" || ending == "close-err"
@@ -304,6 +315,9 @@ func c14Consume(body io.ReadCloser, pieces []int, ending string, log *[]byte) {
 			break
 		}
 		buf = c14Garbage
+		if hook != nil {
+			hook(reads)
+		}
 		n, err := body.Read(buf[:])
 		reads++
 		*log = append(*log, 'R', byte(n))
@@ -519,7 +533,14 @@ func c14RunClient(c *c14Case, body []byte, traced bool, coll Collector, obs *c14
 	}
 	*log = append(*log, byte(resp.StatusCode>>8), byte(resp.StatusCode))
 	c14LogHeader(log, 'h', resp.Header)
-	c14Consume(resp.Body, respPieces, respEnding, log)
+	var hook func(int)
+	if c.Mut != nil && c.Side == c14ClientResp {
+		hook = func(i int) { c.Mut.applyAt(i, resp.Header) } // the caller owns resp.Header once RoundTrip has returned
+	}
+	c14ConsumeHook(resp.Body, respPieces, respEnding, log, hook)
+	if hook != nil {
+		c14LogHeader(log, 'm', resp.Header)
+	}
 	c14LogHeader(log, 't', resp.Trailer)
 }
 
@@ -540,7 +561,11 @@ func c14RunServer(c *c14Case, body []byte, traced bool, coll Collector, obs *c14
 		*log = append(*log, r.Method...)
 		c14LogHeader(log, 'q', r.Header)
 		if c.Side == c14ServerReq {
-			c14Consume(r.Body, c.Pieces, c.Ending, log)
+			var hook func(int)
+			if c.Mut != nil {
+				hook = func(i int) { c.Mut.applyAt(i, r.Header) } // the handler's own copy of the request
+			}
+			c14ConsumeHook(r.Body, c.Pieces, c.Ending, log, hook)
 			return
 		}
 		h := w.Header()
@@ -553,6 +578,9 @@ func c14RunServer(c *c14Case, body []byte, traced bool, coll Collector, obs *c14
 		pos := 0
 		failed := false
 		for i, n := range c.Pieces {
+			if c.Mut != nil {
+				c.Mut.applyAt(i, h) // legal only once the headers went out: the enumeration sees to that
+			}
 			p := body[pos : pos+n]
 			pos += n
 			if i == len(c.Pieces)-1 && c.Ending == "werr-partial" {
@@ -568,6 +596,9 @@ func c14RunServer(c *c14Case, body []byte, traced bool, coll Collector, obs *c14
 				failed = true
 				break
 			}
+		}
+		if c.Mut != nil && !failed {
+			c.Mut.applyAt(len(c.Pieces), h)
 		}
 		if c.Ending == "werr0" && !failed {
 			wn, err := w.Write(c14Extra)
@@ -1334,17 +1365,21 @@ func TestVerifC14(t *testing.T) {
 		"all cases are distinct by construction; non-trivial = at least one byte delivered. " +
 		"Stage H (first): history = ordered pair of such cases traced back to back in one process (first: damaged / cut / failing or valid body, " +
 		"second: valid body), judged like single cases plus: the second body's events equal those of the same body traced in a fresh process state. " +
-		"Stage S (second): encoding names in every spelling (lower, UPPER, Title, mIXED) for every supported encoding and every header that carries them"
+		"Stage S (second): encoding names in every spelling (lower, UPPER, Title, mIXED) for every supported encoding and every header that carries them. " +
+		"Stage M (before both): single cases plus a late edit of the live header map (ResponseWriter.Header() after WriteHeader, resp.Header after RoundTrip returned, the handler's request header): " +
+		"delete / set / add an encoding or content-type header before the k-th Read/Write call of the body, at every byte offset; events must equal those of the case without the edit. " +
+		"Stage P (after M): exchange over the HTTP/2 conn tracer with hand-built frames = (server-side / client-side conn, headers, body, cut of the body into DATA frames, PADDED flag and pad length of each frame, " +
+		"carrier of END_STREAM, shape of the HEADERS frames (PADDED, PRIORITY, CONTINUATION), size of the conn Read/Write calls); body events of both directions must equal those of one unpadded DATA frame"
 	if in := rep.ReplayInput(); in != nil {
-		if c14HistoryReplay(t, r, in) {
+		if c14H2Replay(t, r, in) || c14HistoryReplay(t, r, in) || c14MutateReplay(t, r, in) {
 			return
 		}
 		c14Replay(t, r, in)
 		return
 	}
 	deadline := rep.Deadline()
-	// The two cheap stages come first so that a budget hit in the heavy enumeration below cannot starve them.
-	if !c14HistoryStage(r, deadline) || !c14ShapeStage(r, deadline) {
+	// The cheap stages come first so that a budget hit in the heavy enumeration below cannot starve them.
+	if !c14MutateStage(r, deadline) || !c14H2Stage(r, deadline) || !c14HistoryStage(r, deadline) || !c14ShapeStage(r, deadline) {
 		r.NotExhaustive("budget reached before all units were enumerated")
 		return
 	}
